@@ -14,7 +14,9 @@ ASSUME = ["the abstract value of an object is its projection (class, dom, cod, b
           "defining the classes of its parts (a rigid sum prints as monoidal's Sum)",
           "pairs: all pairs of the descriptors of MC_Values (objects with windings, types, boxes), and for diagrams: "
           "the same model state built along different paths (constructor, composition, simulated API histories, "
-          "double dagger), against each other and against other states of the same type"]
+          "double dagger), against each other and against other states of the same type",
+          "types: every type of MC_Types (atoms with windings -2..2, length <= 3) as rigid.Ty and, without windings, as "
+          "monoidal.Ty; tensor, l, r, <<, >>, slices, reversal, powers, indexing, count and z judged by Trace_Types"]
 DATA = {0: None, 1: {"a": [1, 2]}, 2: [1, [2, 3]]}
 # what the abstract payload indices 1 and 2 stand for rotates with the pair: ordinary values, and values that are falsy
 # without being None (a payload of 0 is a payload; only None means "no data")
@@ -105,6 +107,117 @@ def proj_value(v, names):
                        "cod": proj_ty(b.cod, names), "dg": int(bool(getattr(b, "_dagger", False))),
                        "data": repr(getattr(b, "_data", None))} for b in v.boxes],
             "offs": list(v.offsets)}
+
+
+# ---------------------------------------------------------------- the algebra of types (Types.tla)
+TNAMES = {1: "x", 2: "y"}
+
+
+def _ty_mk(cls, atoms):
+    from discopy import monoidal, rigid
+    if cls == "rigid":
+        return rigid.Ty(*[rigid.Ob(TNAMES[a[0]], a[1]) for a in atoms])
+    return monoidal.Ty(*[monoidal.Ob(TNAMES[a[0]]) for a in atoms])
+
+
+def _ty_pj(v):
+    objs = v.objects if hasattr(v, "objects") else [v]
+    return [[{"x": 1, "y": 2}[o.name], int(getattr(o, "z", 0) or 0)] for o in objs]
+
+
+def type_call(cls, t, op, i, j, a):
+    """one operation on the real type built from the atoms t; the record judged by Trace_Types!JT"""
+    from discopy import monoidal, rigid
+    NONE = -1000
+    ns = dict(vars(monoidal))
+    if cls == "rigid":
+        ns.update(vars(rigid))
+    T, A1, n = _ty_mk(cls, t), _ty_mk(cls, [a]), len(t)
+    rec = {"cls": cls, "t": t, "op": op, "i": i, "j": j, "a": a, "res": [], "exc": "", "eq": 0, "hasheq": 0, "rt": 0,
+           "cnt": 0, "zz": -99}
+    try:
+        res = {"tensorR": lambda: T @ A1, "tensorL": lambda: A1 @ T, "l": lambda: T.l, "r": lambda: T.r,
+               "lshift": lambda: T << A1, "rshift": lambda: T >> A1, "rev": lambda: T[::-1], "pow": lambda: T ** i,
+               "slice": lambda: T[(None if i == NONE else i):(None if j == NONE else j)],
+               "index": lambda: T[i]}[op]()
+        rec["res"] = _ty_pj(res)
+        if op == "index":
+            twin = _ty_mk(cls, rec["res"])[0]
+            rec["rt"] = 1
+        else:
+            twin = _ty_mk(cls, rec["res"])
+            rec["rt"] = int(eval(repr(res), ns) == res)
+        rec["eq"] = int(res == twin and twin == res and not (res != twin))
+        rec["hasheq"] = int(hash(res) == hash(twin))
+        rec["cnt"] = int(T.count(A1))
+        if cls == "rigid":
+            try:
+                rec["zz"] = int(T.z)
+            except TypeError:
+                rec["zz"] = -99
+        else:
+            rec["zz"] = 0 if n == 1 else -99
+    except Exception as e:
+        rec["exc"] = type(e).__name__
+    return rec
+
+
+def types_leg(work, tier, rnd, rejected, clauses):
+    """every state of MC_Types rebuilt as rigid.Ty / monoidal.Ty, every operation of the menu applied, results judged
+    by Trace_Types (value, ==, hash and repr against the constructor-built type with the same atoms)"""
+    from discopy import monoidal, rigid
+    quick = tier == "quick"
+    model = core.run_model("MC_Types", work, constants={"MaxLen": 3 if quick else 4, "ZMax": 2}, invariants=["InvAdjoints", "InvSlices"],
+                           view="View", dump=True, tag="_types")
+    states = [st["t"] for st in tlaval.read_dump(model["dump"])]
+    os.remove(model["dump"])
+    n_states = len(states)
+    if len(states) > (500 if quick else 5000):
+        states = rnd.sample(states, 500 if quick else 5000)
+    NONE = -1000
+    rows = []
+    atoms_all = [[n, z] for n in (1, 2) for z in (-1, 0, 1)]
+    for t in states:
+        for cls in ("rigid", "monoidal"):
+            if cls == "monoidal" and any(a[1] for a in t):
+                continue
+            n = len(t)
+            calls = []
+            for a in (atoms_all if cls == "rigid" else [[1, 0], [2, 0]]):
+                calls += [("tensorR", 0, 0, a), ("tensorL", 0, 0, a)]
+                if cls == "rigid":
+                    calls += [("lshift", 0, 0, a), ("rshift", 0, 0, a)]
+            if cls == "rigid":
+                calls += [("l", 0, 0, [1, 0]), ("r", 0, 0, [1, 0])]
+            calls += [("rev", 0, 0, [1, 0])] + [("pow", k, 0, [1, 0]) for k in (0, 1, 2)]
+            rng_ = [NONE] + list(range(-(n + 1), n + 2))
+            calls += [("slice", i, j, [1, 0]) for i in rng_ for j in rng_]
+            calls += [("index", i, 0, [1, 0]) for i in range(-(n + 1), n + 1)]
+            rows += [type_call(cls, t, op, i, j, a) for op, i, j, a in calls]
+    tf = os.path.join(work, "types.ndjson")
+    core.write_ndjson(tf, rows)
+    val = core.validate("Trace_Types", "JT", tf, work, constants={"MaxLen": 0, "ZMax": 0}, timeout=3000)
+    ok = 0
+    for t, v in zip(rows, val["verdicts"]):
+        clauses["types:" + v[0]] += 1
+        ok += v[0] == "ok"
+        if v[0] != "ok":
+            rejected.append({"clause": v[0], "sig": "types cls=%s op=%s i=%s j=%s a=%s on %s exc=%s" % (
+                t["cls"], t["op"], t["i"], t["j"], t["a"], t["t"], t["exc"] or "-"), "obs": {"types": 1, "row": t}})
+    # canary: a left adjoint whose windings were not shifted must be rejected
+    bad = next((dict(t) for t, v in zip(rows, val["verdicts"]) if v[0] == "ok" and t["op"] == "l" and len(t["t"]) >= 1), None)
+    if bad is None:
+        raise core.Machinery("no canary candidate in the types leg")
+    bad["res"] = [[a[0], a[1] + 1] for a in bad["res"]]
+    cf = os.path.join(work, "types-canary.ndjson")
+    core.write_ndjson(cf, [bad])
+    got = core.validate("Trace_Types", "JT", cf, work, constants={"MaxLen": 0, "ZMax": 0})["verdicts"][0][0]
+    if got == "ok":
+        raise core.Machinery("types canary accepted")
+    return {"module": "MC_Types", "states": model["distinct"], "transitions": model["generated"], "types_in_model": n_states,
+            "types_replayed": len(states), "calls": len(rows), "ok": ok, "by_op": dict(Counter(t["op"] for t in rows)),
+            "refusals": dict(Counter(t["exc"] for t in rows if t["exc"])),
+            "invariants": ["InvAdjoints", "InvSlices"], "canary": {"corrupted": "windings of a left adjoint", "rejected_with": got}}
 
 
 def run(tier, seed, t0):
@@ -248,9 +361,11 @@ def run(tier, seed, t0):
         got = core.validate("Trace_Values", "JPair", cf, work, constants=VC)["verdicts"][0][0]
         if got == "ok":
             raise core.Machinery("canary accepted")
-        cov = {"states": model["distinct"] + mc["distinct"] + ev["distinct"],
-               "transitions": model["generated"] + mc["generated"] + ev["generated"],
-               "traces_validated_against_impl": clauses["ok"],
+        tinfo = types_leg(work, tier, rnd, rejected, clauses)
+        cov = {"states": model["distinct"] + mc["distinct"] + ev["distinct"] + tinfo["states"],
+               "transitions": model["generated"] + mc["generated"] + ev["generated"] + tinfo["transitions"],
+               "traces_validated_against_impl": clauses["ok"] + tinfo["ok"],
+               "type_algebra": tinfo,
                "samples": [{k: t[k] for k in ("cls", "pa", "pb", "ab", "ba", "hab", "rta", "rtb", "lk", "wrap", "tr")}
                            for t in (rows[0], rows[n_desc // 2], rows[-1])],
                "exhaustive": False,
@@ -266,6 +381,18 @@ def run(tier, seed, t0):
 def replay(path):
     with open(path) as f:
         t = json.load(f)["observation"]
+    if t.get("types"):
+        r = t["row"]
+        rec = type_call(r["cls"], r["t"], r["op"], r["i"], r["j"], r["a"])
+        with core.workdir("C03-replay") as work:
+            tf = os.path.join(work, "one.ndjson")
+            core.write_ndjson(tf, [rec])
+            v = core.validate("Trace_Types", "JT", tf, work, constants={"MaxLen": 0, "ZMax": 0})["verdicts"][0][0]
+        print("replayed %s on %s: %s" % (r["op"], r["t"], v))
+        if v != "ok":
+            print("VIOLATION property=C03 replay=%s clause=%s" % (path, v))
+            return 1
+        return 0
     with core.workdir("C03-replay") as work:
         if t["pa"].get("k") in ("ob", "ty", "box"):
             a, b = build_desc(t["cls"], t["pa"], t.get("tab", 0)), build_desc(t["cls"], t["pb"], t.get("tab", 0))
